@@ -350,8 +350,11 @@ class DrawTr:
                 self.env[v] = saved
 
     # ------------------------------------------------------------------ statements
+    # ------------------------------------------------------------------ statements (pure `let` style)
+    # A statement list becomes a chain of `let`s; every branching statement binds the tuple (items it emitted, locals it
+    # assigned) once, so the text does not duplicate the continuation.  `out` inside a branch / loop body is local to it.
     def emit(self, line, ind):
-        self.scopes[-1].lines.append("  " * ind + line)
+        self.lines[-1].append("  " * ind + line)
 
     def coerce(self, a, ty, to):
         if ty == to:
@@ -362,48 +365,37 @@ class DrawTr:
             return "none"
         raise Unsupported(f"{ty} assigned where {to} expected")
 
-    def assign_name(self, name, value, ind, nested):
-        sc = self.scopes[-1]
+    def assign_name(self, name, value, ind):
         try:
             a, ty = self.ex(value)
-            if ty in ("Pred", "Trj", "Shape", "Scn", "PPDict", "PPSet", "Obst") or ty.startswith("Grp:"):
-                # an alias of an object: keep it symbolic (no Lean binding needed)
-                if nested or name in sc.declared:
-                    raise Unsupported(f"alias {name} re-bound")
-                self.alias(name, a, ty)
+            if ty in ("Pred", "Trj", "Shape", "Scn", "PPDict", "PPSet", "Obst", "Lanelet") or ty.startswith("Grp:"):
+                # an alias of an object of the model: substituted textually
+                if len(self.lines) > 1:
+                    raise Unsupported(f"alias {name} bound inside a branch")
+                self.env[name] = ty
+                self.aliases[name] = a
                 return
-        except Unsupported as e:
+        except Unsupported:
             if self.has_effect(value):
                 raise
             if isinstance(value, ast.Constant) and value.value is None and name in self.t.var_types:
                 a, ty = "none", "None"
             else:
                 self.env[name] = "Opaque"
+                self.assigned[-1].add(name)
                 return
-        decl = self.t.var_types.get(name)
         cur = self.env.get(name)
-        if name in sc.declared and cur not in (None, "Opaque"):
-            self.emit(f"{self.lname(name)} := {self.coerce(a, ty, cur)}", ind)
-            return
-        if name in sc.declared and cur == "Opaque":
-            raise Unsupported(f"{name} holds an opaque value on another path")
-        if ty == "None" and not decl:
+        vt = self.t.var_types.get(name) or (cur if cur not in (None, "Opaque") and (ty == "None" or cur.rstrip("?") == ty.rstrip("?")) else ty)
+        if vt == "None":
             raise Unsupported(f"{name} = None without a declared type")
-        vt = decl or ty
         a = self.coerce(a, ty, vt)
         if vt not in LEAN_TY:
             raise Unsupported(f"local of kind {vt}")
-        sc.declared.add(name)
+        if cur not in (None, "Opaque") and cur != vt and len(self.lines) > 1:
+            raise Unsupported(f"{name} changes its kind inside a branch")
         self.env[name] = vt
-        if nested:
-            sc.hoist.append((name, vt))
-            self.emit(f"{self.lname(name)} := {a}", ind)
-        else:
-            self.emit(f"let mut {self.lname(name)} : {LEAN_TY[vt]} := {a}", ind)
-
-    def alias(self, name, text, ty):
-        self.env[name] = ty
-        self.aliases[name] = text
+        self.assigned[-1].add(name)
+        self.emit(f"let {self.lname(name)} : {LEAN_TY[vt]} := {a}", ind)
 
     def has_effect(self, value):
         for c in ast.walk(value):
@@ -421,7 +413,8 @@ class DrawTr:
         return f"{self.lname(next(iter(names)))}.anchor"
 
     def out(self, items, ind):
-        self.emit(f"out := out ++ {items}", ind)
+        self.assigned[-1].add("out")
+        self.emit(f"let out := out ++ {items}", ind)
 
     def call_stmt(self, n, ind):
         d = dotted(n.func)
@@ -485,30 +478,50 @@ class DrawTr:
             return self.out(f"[Item.label {self.anchor_of(ast.Tuple(elts=[c.args[0], c.args[1]]))}]", ind)
         raise Unsupported(f"statement call {d}")
 
-    def block(self, stmts, ind, nested):
-        for s in stmts:
-            self.stmt(s, ind, nested)
+    def ends_in_return(self, stmts):
+        return bool(stmts) and isinstance(stmts[-1], ast.Return)
 
-    def sub(self, stmts, ind):
-        """Translate a nested statement list; returns the lines it produced (removed from the scope)."""
-        sc = self.scopes[-1]
-        mark = len(sc.lines)
-        self.block(stmts, ind, True)
-        lines = sc.lines[mark:]
-        del sc.lines[mark:]
-        return lines
+    def has_return(self, stmts):
+        return any(isinstance(x, ast.Return) for s in stmts for x in ast.walk(s))
 
-    def stmt(self, s, ind, nested):
+    def term(self, stmts, ind, result, allow_return, out_ty="List Item"):
+        """Lines of a Lean term: `out := []`, the statements, then the tuple `result`.  Returns (lines, assigned names)."""
+        self.lines.append([])
+        self.assigned.append(set())
+        self.otys.append(out_ty)
+        self.emit(f"let out : {out_ty} := []", ind)
+        done = False
+        for i, s in enumerate(stmts):
+            if isinstance(s, ast.Return):
+                if not allow_return or (s.value is not None and not (isinstance(s.value, ast.Constant) and s.value.value is None)):
+                    raise Unsupported("return inside a branch or loop, or of a value")
+                break
+            if isinstance(s, ast.If) and self.has_return(s.body + s.orelse):
+                # `if c: …; return` [elif …: return] at the level of the function: the rest of the function is the else part
+                if not allow_return or not self.ends_in_return(s.body) or self.has_return(s.body[:-1]):
+                    raise Unsupported("return inside a nested block")
+                c = self.boolean(s.test)
+                a, _ = self.term(s.body[:-1], ind + 1, ["out"], False, out_ty)
+                b, _ = self.term(list(s.orelse) + list(stmts[i + 1:]), ind + 1, ["out"], True, out_ty)
+                self.emit(f"out ++ (if {c} then", ind)
+                self.lines[-1].extend(a)
+                self.emit("else", ind + 1)
+                self.lines[-1].extend(b + ["  " * (ind + 1) + ")"])
+                done = True
+                break
+            self.stmt(s, ind)
+        if not done:
+            self.emit("(" + ", ".join(result) + ")" if len(result) > 1 else result[0], ind)
+        self.otys.pop()
+        return self.lines.pop(), self.assigned.pop()
+
+    def stmt(self, s, ind):
         if isinstance(s, ast.Expr) and isinstance(s.value, ast.Constant):
             return
         if isinstance(s, ast.Pass):
             return
         if isinstance(s, ast.Expr) and isinstance(s.value, ast.Call):
             return self.call_stmt(s.value, ind)
-        if isinstance(s, ast.Return):
-            if s.value is not None and not (isinstance(s.value, ast.Constant) and s.value.value is None):
-                raise Unsupported("return of a value")
-            return self.emit("return out", ind)
         if isinstance(s, ast.Assign):
             # draw_params = draw_params or self.draw_params
             if len(s.targets) == 1 and isinstance(s.targets[0], ast.Name) and isinstance(s.value, ast.BoolOp) \
@@ -517,7 +530,7 @@ class DrawTr:
                 return
             for tg in s.targets:
                 if isinstance(tg, ast.Name):
-                    self.assign_name(tg.id, s.value, ind, nested)
+                    self.assign_name(tg.id, s.value, ind)
                 elif isinstance(tg, ast.Attribute):
                     base = dotted(tg.value)
                     if dotted(tg) in SKIP_STORES or self.env.get(base) == "Opaque":
@@ -532,9 +545,22 @@ class DrawTr:
             op = {ast.Add: ast.Add(), ast.Sub: ast.Sub()}.get(type(s.op))
             if op is None:
                 raise Unsupported("augmented op")
-            return self.assign_name(s.target.id, ast.BinOp(left=ast.Name(id=s.target.id), op=op, right=s.value), ind, nested)
+            return self.assign_name(s.target.id, ast.BinOp(left=ast.Name(id=s.target.id), op=op, right=s.value), ind)
         if isinstance(s, ast.If):
-            return self.if_stmt(s, ind, nested)
+            try:
+                test = self.boolean(s.test)
+                why = None
+            except Unsupported as e:
+                test, why = None, e
+            if test == "true":
+                for x in s.body:
+                    self.stmt(x, ind)
+                return
+            if test == "false":
+                for x in s.orelse:
+                    self.stmt(x, ind)
+                return
+            return self.branch(test, why, s.body, s.orelse, ind, self.narrowing(s.test))
         if isinstance(s, ast.For) and not s.orelse:
             return self.for_stmt(s, ind)
         if isinstance(s, ast.Try) and not s.orelse and not s.finalbody and len(s.handlers) == 1 \
@@ -553,11 +579,7 @@ class DrawTr:
                 if c not in conds:
                     conds.append(c)
                 self.env[b.targets[0].id] = "Opaque"
-            handler = self.sub(s.handlers[0].body, ind + 1)
-            if handler:
-                self.emit(f"if !({' && '.join(conds)}) then", ind)
-                self.scopes[-1].lines.extend(handler)
-            return
+            return self.branch(f"(!({' && '.join(conds)}))", None, s.handlers[0].body, [], ind, None)
         raise Unsupported(f"statement {type(s).__name__}")
 
     def narrowing(self, test):
@@ -568,35 +590,48 @@ class DrawTr:
                 return dotted(test.args[0]), cls
         return None
 
-    def if_stmt(self, s, ind, nested):
-        # statically decided tests (parameter resolution)
-        try:
-            test = self.boolean(s.test)
-        except Unsupported:
-            test = None
-        if test == "true":
-            return self.block(s.body, ind, nested)
-        if test == "false":
-            return self.block(s.orelse, ind, nested)
-        nr = self.narrowing(s.test)
+    def branch(self, test, why, body, orelse, ind, nr):
+        if self.has_return(list(body) + list(orelse)):
+            raise Unsupported("return inside a nested block")
+        before = dict(self.env)
         saved = dict(self.narrow)
         if nr:
             self.narrow[nr[0]] = nr[1]
-        body = self.sub(s.body, ind + 1)
+        a, ma = self.term(body, ind + 2, ["?"], False, self.otys[-1])
         self.narrow = saved
-        orelse = self.sub(s.orelse, ind + 1)
-        if not body and not orelse:
+        b, mb = self.term(orelse, ind + 2, ["?"], False, self.otys[-1])
+        m = sorted(v for v in (ma | mb) - {"out"} if self.env.get(v) != "Opaque")
+        for v in (ma | mb) - {"out"}:
+            # a local that is opaque on one path is opaque afterwards
+            if self.env.get(v) == "Opaque" or (v in before and before[v] == "Opaque" and not (v in ma and v in mb)):
+                self.env[v] = "Opaque"
+        m = [v for v in m if self.env.get(v) != "Opaque"]
+        self.assigned[-1] |= (ma | mb)
+        if "out" not in (ma | mb) and not m:
             return                      # nothing observable depends on this test
         if test is None:
-            self.boolean(s.test)        # raises with the precise reason
-        self.emit(f"if {test} then", ind)
-        self.scopes[-1].lines.extend(body or ["  " * (ind + 1) + "pure ()"])
-        if orelse:
-            self.emit("else", ind)
-            self.scopes[-1].lines.extend(orelse)
+            raise why
+        for v in m:
+            if v not in before or before[v] == "Opaque":
+                self.emit(f"let {self.lname(v)} : {LEAN_TY[self.env[v]]} := {DEFAULT[self.env[v]]}", ind)
+        tup = "(" + ", ".join(["out"] + [self.lname(v) for v in m]) + ")" if m else "out"
+        a[-1] = "  " * (ind + 2) + tup
+        b[-1] = "  " * (ind + 2) + tup
+        self.nres += 1
+        r = f"r{self.nres}"
+        self.emit(f"let {r} := if {test} then", ind)
+        self.lines[-1].extend(a)
+        self.emit("else", ind + 1)
+        self.lines[-1].extend(b)
+        if not m:
+            self.emit(f"let out := out ++ {r}", ind)
+        else:
+            self.emit(f"let out := out ++ {r}.1", ind)
+            for i, v in enumerate(m):
+                proj = ".2" * (i + 1) + (".1" if i < len(m) - 1 else "")
+                self.emit(f"let {self.lname(v)} := {r}{proj}", ind)
 
     def for_stmt(self, s, ind):
-        # iteration source and loop variable
         it = s.iter
         var = None
         if isinstance(it, ast.Call) and dotted(it.func) == "enumerate" and len(it.args) == 1 and isinstance(s.target, ast.Tuple) \
@@ -621,49 +656,43 @@ class DrawTr:
             if not ty.startswith("List:"):
                 raise Unsupported(f"loop over {ty}")
             ety = ty[5:]
+        if self.has_return(s.body) or any(isinstance(x, (ast.Break, ast.Continue)) for b in s.body for x in ast.walk(b)):
+            raise Unsupported("return / break / continue inside a loop")
         saved_key = self.loopkey
         if key_only:
             self.loopkey = self.lname(var)
         outer_env = dict(self.env)
         self.env[var] = ety
-        sc = Scope()
-        self.scopes.append(sc)
+        per = self.t.per_iteration and len(self.lines) == 1
         try:
-            self.block(s.body, ind + 2, False)
+            inner, touched = self.term(s.body, ind + 2, ["out"], False, "List Item" if per else self.otys[-1])
         finally:
-            self.scopes.pop()
             self.loopkey = saved_key
-        inner = ["  " * (ind + 2) + f"let mut {self.lname(v)} : {LEAN_TY[t]} := {DEFAULT[t]}" for v, t in sc.hoist] + sc.lines
-        # variables bound inside the loop are stale afterwards (a read before a new assignment is untranslatable)
-        touched = set(self.env) - set(outer_env) | {v for v in self.env if self.env[v] != outer_env.get(v)} | {var}
+        # locals bound inside the loop are stale afterwards (a read before a new assignment is untranslatable)
+        touched = (touched - {"out"}) | {var}
         self.env = outer_env
         for v in touched:
             self.env[v] = "Opaque"
-            self.scopes[-1].declared.discard(v)
-        per = self.t.per_iteration and len(self.scopes) == 1
         comb = "map" if per else "flatMap"
-        self.emit(f"out := out ++ ({src}).{comb} (fun {self.lname(var)} => Id.run do", ind)
-        self.emit("let mut out : List Item := []", ind + 2)
-        self.scopes[-1].lines.extend(inner)
-        self.emit("return out)", ind + 2)
+        self.assigned[-1].add("out")
+        self.emit(f"let out := out ++ ({src}).{comb} (fun {self.lname(var)} =>", ind)
+        inner[-1] = inner[-1] + ")"
+        self.lines[-1].extend(inner)
 
     # ------------------------------------------------------------------ whole function
     def function(self, fn):
         self.aliases = {}
-        sc = Scope()
-        self.scopes = [sc]
-        # resolve aliases by textual substitution: an alias is a python local naming an object of the model
+        self.lines, self.assigned, self.nres = [[]], [set()], 0
+        self.out_ty = {"List (List Item)": "List (List Item)", "List Int": "List Int"}.get(self.t.ret, "List Item")
         orig_lname = self.lname
 
         def lname(name):
             return self.aliases.get(name, orig_lname(name))
         self.lname = lname
-        self.block(fn.body, 1, False)
-        hoist = [f"  let mut {orig_lname(v)} : {LEAN_TY[t]} := {DEFAULT[t]}" for v, t in sc.hoist]
-        out_ty = self.t.ret
-        body = "\n".join([f"  let mut out : {out_ty} := []"] + hoist + sc.lines + ["  return out"])
+        self.lines, self.assigned, self.otys = [], [], []
+        body, _ = self.term(fn.body, 1, ["out"], True, self.out_ty)
         doc = f"/-- {MPR}: MPRenderer.{self.t.func}{(' — ' + self.t.doc) if self.t.doc else ''} -/\n"
-        return doc + f"def {self.t.name} {self.t.binders} : {out_ty} := Id.run do\n{body}\n"
+        return doc + f"def {self.t.name} {self.t.binders} : {self.t.ret} :=\n" + "\n".join(body) + "\n"
 
 
 def draw_targets():
@@ -697,10 +726,7 @@ def draw_targets():
 def translate_draw(tree, t: DTarget) -> str:
     fn = find_func(tree, "MPRenderer", t.func)
     tr = DrawTr(t)
-    txt = tr.function(fn)
-    if t.ret == "List Int":
-        txt = txt.replace("let mut out : List Item := []", "let mut out : List Int := []")
-    return txt
+    return tr.function(fn)
 
 
 # --------------------------------------------------------------------------------------------------------------------
